@@ -1,2 +1,21 @@
+"""C02 obligations for combinators and structured layers (zoo2)."""
+from . import c01x
+
+
+def ob_logdet_fwd_all(spec_name):
+    from .. import zoo
+    from ..bij import ob_logdet_fwd
+    spec = zoo.get(spec_name)
+    out = []
+    for c in spec.x_cases():
+        out += ob_logdet_fwd(spec_name, c.name)
+    return out
+
+
 def obligations(tier, seed):
-    return []
+    tasks = []
+    for nm in (c01x.COMB_QUICK if tier == "quick" else c01x.COMB_THOROUGH):
+        tasks.append(dict(name=nm, func="c02:ob_logdet_all", kwargs=dict(spec_name=nm), cost=3.0 if nm.startswith("coupling") else 1.0))
+    for nm in (c01x.FWD_ONLY_QUICK if tier == "quick" else c01x.FWD_ONLY_THOROUGH):
+        tasks.append(dict(name=nm + "/fwd", func="c02x:ob_logdet_fwd_all", kwargs=dict(spec_name=nm), cost=6.0))
+    return tasks
